@@ -62,6 +62,28 @@ for _w in ('crew', 'doing', 'todo'):
     _mk(_w)
 
 
+vd_empty = z3.Function('view_doing_is_empty', ListSet(NODE).sort(), z3.ArraySort(NODE.sort(), STATE.sort()), z3.BoolSort())
+
+
+def condition_holds(view, which):
+    """the condition of a priority, evaluated on the scheduler/farm state"""
+    if which == 'crew':
+        return z3.Length(view.g('dawgie.pl.farm._busy')) == 0
+    if which == 'doing':
+        return vd_empty(view.g('dawgie.pl.schedule.que'), view.arr('Node.status'))
+    return view.g('dawgie.pl.schedule.que') == ListSet(NODE).empty()
+
+
+def _view_doing(ex, args, kwargs, e):
+    """assumed here (bounded under C04): view_doing() is a function of the queue and the node statuses; only its emptiness is used"""
+    m = ex.fresh('view_doing', MapOf(ATOM, ATOM))
+    ex.assume((m == MapOf(ATOM, ATOM).empty()) == vd_empty(ex.st.glob['dawgie.pl.schedule.que'], ex.st.heap['Node.status']))
+    return ex.newbox(m, MapOf(ATOM, ATOM))
+
+
+W.externs['dawgie.pl.schedule.view_doing'] = Extern(fn=_view_doing)
+
+
 def _waiter(which, cleared, sets):
     @contract(W, 'dawgie/pl/state.py', 'FSM.wait_for_' + which, props=['C12'])
     class _K(ContractBase):
@@ -90,16 +112,25 @@ def _waiter(which, cleared, sets):
         params = {}
         vararg = []
         free = {'self': FSM}
-        modifies = ['FSM.%s_thread' % which, 'ghost.update_triggers']
+        modifies = ['FSM.%s_thread' % which, 'ghost.update_triggers', 'Event.flag', 'ghost.pollers_started']
         assumes = [fsm_distinct_events]
+
+        def requires(c):
+            # done() is the callback of the poller that is finishing: no other poller of this kind was started by this call
+            return {'fresh-ghost': Not(c.old.g('ghost.pollers_started')[atom(which)])}
 
         def ensures(c):
             s = c['self']
             OD = Opt(DEFERRED)
             n0, n1 = c.old.g('ghost.update_triggers'), c.cur.g('ghost.update_triggers')
             waiting = Not(flag(c.old, s, which))
-            return {'M3.slot-released': OD.is_none(c.cur.f('FSM.%s_thread' % which, s)),
-                    'trigger-iff-waiting': n1 == n0 + If(waiting, 1, 0)}
+            active = And(c.old.f('FSM.state', s) == FSMSTATE.const('running'), c.old.f('FSM._FSM__transitioning', s) == STATUS.const('active'))
+            holds = And(active, condition_holds(c.old, which))
+            rearmed = c.cur.g('ghost.pollers_started')[atom(which)]
+            return {'M3.slot-free-iff-no-poller': OD.is_none(c.cur.f('FSM.%s_thread' % which, s)) == Not(rearmed),
+                    'trigger-only-when-condition-holds-now': n1 == n0 + If(And(waiting, holds), 1, 0),
+                    'keeps-waiting-otherwise': Implies(And(waiting, Not(holds)), And(rearmed, Not(flag(c.cur, s, which)))),
+                    'cancelled-stays-quiet': Implies(Not(waiting), And(Not(rearmed), n1 == n0))}
     _D.__name__ = 'wait_for_%s_done' % which
     return _K, _D
 
